@@ -26,6 +26,10 @@ os.environ.setdefault("JAX_PLATFORMS", "cpu")
 os.environ.setdefault("JAX_ENABLE_X64", "1")
 os.environ.setdefault("PNKRAEMER_PROBDIFFEQ_VERIF", "1")
 
+import faulthandler
+import signal
+
+faulthandler.register(signal.SIGUSR1, all_threads=True)
 from harness import core  # noqa: E402
 
 
